@@ -11,7 +11,7 @@ import random
 import subprocess
 
 ROOT = os.path.dirname(os.path.dirname(os.path.abspath(__file__)))
-OUT = os.path.join(ROOT, 'replay', 'data', 'ns_corpus.txt')
+OUT = os.environ.get('NS_CORPUS_OUT') or os.path.join(ROOT, 'replay', 'data', 'ns_corpus.txt')
 SCRATCH = os.path.join(ROOT, '.scratch', 'ns_corpus')
 LIBXML2 = '/root/miniconda/lib/libxml2.so.2'
 
@@ -53,7 +53,18 @@ def docs():
         if d not in seen:
             seen.add(d)
             out.append(d)
-    return out
+    # the same documents under other prefixes: reserved-looking ones (beginning with "xml" in any case: legal, Namespaces in XML 3),
+    # one-letter, non-ASCII, with name characters that are not letters -- a prefix is just an NCName
+    renamed = []
+    for d in out[::12]:
+        if 'p:' not in d:
+            continue
+        for new in ['xmlsig', 'xml2', 'XML', 'Xml', 'xm', 'x', '_p', 'p.1', 'p-q', '\u00e9', 'xmlns2', 'q2']:
+            r = d.replace('xmlns:p=', f'xmlns:{new}=').replace('<p:', f'<{new}:').replace('</p:', f'</{new}:').replace(' p:', f' {new}:')
+            if r not in seen:
+                seen.add(r)
+                renamed.append(r)
+    return out + renamed
 
 
 def by_libxml2(docs_):
